@@ -11,7 +11,8 @@ if ! git apply --check "$patch" 2>/dev/null; then
 else
   git apply "$patch"
 fi
-trap 'cd /repo && git checkout -q -- . && git clean -fdq -- nervusdb nervusdb-storage nervusdb-query nervusdb-api nervusdb-capi 2>/dev/null' EXIT
+# evidence written while the change is applied does not describe /repo: put the committed files back
+trap 'git -C /verif checkout -q -- evidence; cd /repo && git checkout -q -- . && git clean -fdq -- nervusdb nervusdb-storage nervusdb-query nervusdb-api nervusdb-capi 2>/dev/null' EXIT
 cd /verif
 for c in "$@"; do
   ./check "$c" 2>&1 | grep -E "^C[0-9]+:|^VIOLATION|signature|BUILD FAILED|broken" | head -8
